@@ -523,3 +523,18 @@ func TestF28MapKeyTypeWithUnmarshalJSON(t *testing.T) {
 		t.Errorf("classic %v %v, v1 %v %v", a, e1, b, e2)
 	}
 }
+
+type f29K struct{ V string }
+
+func (t *f29K) MarshalText() ([]byte, error) { return []byte("k:" + t.V), nil }
+
+// F29: a map type whose key needs a pointer-receiver text method; classic rejects the type even for a nil map.
+func TestF29MapKeyPointerReceiverTextMethod(t *testing.T) {
+	for _, m := range []map[f29K]int{nil, {}, {{"a"}: 1}} {
+		b1, e1 := stdjson.Marshal(m)
+		b2, e2 := jsonv1.Marshal(m)
+		if (e1 == nil) != (e2 == nil) || string(b1) != string(b2) {
+			t.Errorf("%v: classic %s %v, v1 %s %v", m, b1, e1, b2, e2)
+		}
+	}
+}
